@@ -962,7 +962,14 @@ def _c19_multi_binding(rec):
             return True  # a keyword argument spelled like a renamed variable
         return False
 
-    return any(several(kinds.get(n, ())) for n in touched)
+    if any(several(kinds.get(n, ())) for n in touched):
+        return True
+    # a name that one body defines more than once (a property and its setter, overloads): one of the definitions is renamed, the other keeps the name
+    import collections
+
+    twice = collections.Counter((id(scope), f.name) for scope in ast.walk(b[3]) if isinstance(getattr(scope, "body", None), list)
+                                for f in scope.body if isinstance(f, (ast.FunctionDef, ast.AsyncFunctionDef)))
+    return any(k >= 2 and n in touched for (_, n), k in twice.items())
 
 
 @classifier("duplicate-function-kept-under-a-builtin-name")
